@@ -374,6 +374,16 @@ def other_case(ctx, case, monitors):
                     ctx.violation(sig_of(cfg, q="reward", rule="makespan"), f"reward {got} != -makespan {-mk} of the reconstructed schedule", dict(row=b, inst=insts[b], actions=acts))
         if ep.reward_exc is not None:
             ctx.violation(sig_of(cfg, q="reward_raises"), f"get_reward raised {ep.reward_exc}", None)
+        elif ep.reward is not None and all(f is not None for f in fins):
+            # the documented way to ask for the reward of a finished state without an action sequence (the makespan is read
+            # from the state): it must report the same makespan
+            try:
+                r_none = env.get_reward(ep.td_final.clone(), None)
+                ctx.count("c07_reward_without_actions_checks")
+                if r_none.reshape(B, -1)[:, 0].shape != ep.reward.reshape(B, -1)[:, 0].shape or not torch.allclose(r_none.reshape(B, -1)[:, 0].float(), ep.reward.reshape(B, -1)[:, 0].float(), rtol=1e-5, atol=1e-5):
+                    ctx.violation(sig_of(cfg, q="reward", rule="makespan", via="get_reward(td, None)"), f"get_reward(td, None) reports {r_none.reshape(-1)[:4].tolist()}, get_reward(td, actions) {ep.reward.reshape(-1)[:4].tolist()}", None)
+            except Exception as e:
+                ctx.violation(sig_of(cfg, q="reward_raises", via="get_reward(td, None)"), f"get_reward(td, None) raised {type(e).__name__}: {str(e)[:160]}", None)
         return
 
     # ------------------------------------------------------------------ FFSP
@@ -469,6 +479,13 @@ def other_case(ctx, case, monitors):
                 bad = [a for a in acts if not insts[b]["allowed"][a]]
                 if bad:
                     ctx.violation(sig_of(cfg, rule="forbidden"), f"forbidden cells selected (keep-out/probe): {bad}", dict(row=b, inst=insts[b], actions=acts))
+                if name == "dpp":
+                    # the probing port (an index in the instance) is forbidden whatever the instance's initial mask says
+                    pidx = set(int(x) for x in torch.as_tensor(td_keep["probe"][b]).reshape(-1).tolist())
+                    badp = [a for a in acts if a in pidx]
+                    ctx.count("c08_dpp_probe_checks")
+                    if badp:
+                        ctx.violation(sig_of(cfg, rule="probe_selected"), f"probing port selected: {badp}", dict(row=b, inst=insts[b], actions=acts))
                 if name == "mdpp":
                     badp = [a for a in acts if insts[b]["probe"][a]]
                     if badp:
